@@ -102,7 +102,7 @@ def primitives(ctx, cfg, fs, rule):
     b = ctx.look(fs.body('args::inner::State::get'))
     cont = [(sw, c) for (sw, c) in guard_edges(b, [r'^std::ops::Range::<usize>::contains']) if any('scope' in r.path for r in provenance(b, c.args[0], c.bb, 'term'))]
     pres = guard_edges(b, [r'^args::ItemState::present$'])
-    somes = [i for i, k, st in b.stmts() if st['k'] == 'assign' and st['lhs'] == [0, []] and st['rv']['k'] == 'agg' and st['rv'].get('variant') == 'Some']
+    somes = value_sites(b, 'Some')
     good = bool(somes) and all(any(only_via_edge(b, sw.b, sw.target(True), i) for (sw, c) in cont) and any(only_via_edge(b, sw.b, sw.target(True), i) for (sw, c) in pres) for i in somes)
     ctx.ob(rule, 'get:guarded', good, 'State::get returns Some only for an in-scope, present index: %s' % good, where=b.where(), cfg=cfg)
 
@@ -110,7 +110,7 @@ def primitives(ctx, cfg, fs, rule):
     b = ctx.look(fs.one(r"^<args::inner::ArgsIter<'a> as std::iter::Iterator>::next$"))
     cont = [(sw, c) for (sw, c) in guard_edges(b, [r'^std::ops::Range::<usize>::contains']) if any('scope' in r.path for r in provenance(b, c.args[0], c.bb, 'term'))]
     pres = guard_edges(b, [r'^args::ItemState::present$'])
-    somes = [i for i, k, st in b.stmts() if st['k'] == 'assign' and st['lhs'] == [0, []] and st['rv']['k'] == 'agg' and st['rv'].get('variant') == 'Some']
+    somes = value_sites(b, 'Some')
     good = bool(somes) and all(any(only_via_edge(b, sw.b, sw.target(True), i) for (sw, c) in cont) and any(only_via_edge(b, sw.b, sw.target(True), i) for (sw, c) in pres) for i in somes)
     ctx.ob(rule, 'ArgsIter::next:guarded', good, 'ArgsIter::next yields an item only when it is in scope and present: %s' % good, where=b.where(), cfg=cfg)
     # yields (ix, &items[ix]) for the same ix it tested
